@@ -108,7 +108,8 @@ example :
         (fun f => (f.path, f.priority, f.flags))
       = [([98], -5, 0), ([97], 7, 1), ([99], 7, 1)] := by decide
 
-open Sqfs.C17SortTree Sqfs.FsTree in
+open Sqfs.C17SortTree in
+open Sqfs.FsTree hiding FileEnt sortFileList sortFiles in
 /-- **The sort file does not change the tree.**  `fstree_sort_files` on a whole `fstree_t` (`FsTree.Result`): the
 node tree (names, modes, owners, targets, link counts) and the `fs->inodes` array (hence every inode number) are the
 ones it was given, `fs->files` is a permutation of the old list, and the per-file attributes it leaves behind are
@@ -151,7 +152,8 @@ theorem directives_preserve_tree (terminate : Bool) (mt : Matcher) (rawLines : L
 
 
 -- non-vacuity: two files, the second is moved to the front; tree and inode array are carried along
-open Sqfs.C17SortTree Sqfs.FsTree in
+open Sqfs.C17SortTree in
+open Sqfs.FsTree hiding FileEnt sortFileList sortFiles in
 example :
     let R : Result := { tree := default, inodes := [[[98]], [[97]], []], files := [[[97]], [[98]]] }
     (fstreeSortFiles true (fun _ _ _ => false) [[45, 53, 32, 98]] R).toOption.map
@@ -484,7 +486,7 @@ theorem export_table_of_tree (cs : List Tree) (ref : Nat → UInt64) (nums : Lis
 -- non-vacuity: root = { file, dir { file, hard link }, file }: 5 inodes, the calls cover 1..4, the root is 5
 open Sqfs.Numbering Sqfs.C17Export in
 example :
-    let cs : List Tree := [.file, .dir [.file, .hlink], .file]
+    let cs : List Tree := [.file, .dir [.file, .hlink 0], .file]
     (numberRoot cs).2 = 5 ∧ entriesT (numberRoot cs).1 = [2, 3, 1, 4]
       ∧ (∀ m ∈ entriesT (numberRoot cs).1, 1 ≤ m ∧ m ≤ (numberRoot cs).2) := by decide
 
